@@ -1,7 +1,57 @@
 From TT Require Export Judge.RecvOk.
+From TT Require Import Tunnel.ReceiverMisc.
+From stdpp Require Import gmap.
 Definition judge_c07 (steps : list hstep) (impl : list iobs) : verdict :=
   judge_of true (corr_history steps impl) (ok_c07 snap_empty impl).
 (** pairwise: the stream and the same stream with its rejected events removed *)
 Definition judge_c07_pair (steps : list hstep) (impl : list iobs) (steps' : list hstep) (impl' : list iobs) : verdict :=
   judge_of true (corr_history steps impl && corr_history_arena (announced [] steps) steps' impl')
            (ok_c07_pair steps impl steps' impl').
+
+(** ** restores from stale metadata
+
+    A host may persist the spans of a receiver together with a metadata snapshot taken earlier in
+    the same history (persist_metadata() is a separate call).  Spans can then be alive whose call
+    site the restored receiver does not know, and events can be rejected *after* lookups that
+    succeeded.  History: [e0 ++ e1] on a default receiver, metadata taken after [e0], spans (and the
+    local map) after [e1]; restore; then [e2], observed step by step; finally persist. *)
+Definition stale_start (e0 e1 : list event) (keep : bool) : rstate * world :=
+  let '(st0, w0, _) := crun rs_default (mk_w 0 []) e0 in
+  let md := r_meta st0 in
+  let '(st1, w1, _) := crun st0 w0 e1 in
+  let '(st2, w2, _) := restore w1 md (r_spans st1) (if keep then r_local st1 else ∅) in
+  (st2, w2).
+
+Fixpoint stale_run (st : rstate) (w : world) (evs : list event) : list mobs * rstate :=
+  match evs with
+  | [] => ([], st)
+  | ev :: r => let '(o, st', w', calls) := try_receive st w ev in
+               let '(obs, stf) := stale_run st' w' r in (MRecv o calls st' :: obs, stf)
+  end.
+
+Definition corr_stale (e0 e1 : list event) (keep : bool) (e2 : list event)
+    (snap0 : snap) (impl : list iobs) (final_exits : list hcall) : bool :=
+  let '(st, w) := stale_start e0 e1 keep in
+  let '(obs, stf) := stale_run st w e2 in
+  snap_matches st snap0 && all2 obs_matches obs impl
+  && batch_eqb (exits_of (r_entered stf) (r_local stf)) final_exits.
+
+(** [impl] / [impl'] : observations of [e2] and of [e2] without its rejected events, from the same
+    restored state; the final persist batches are compared too *)
+Definition events_eqb := list_eqb event_eqb.
+Fixpoint filter_rejected_ev (evs : list event) (impl : list iobs) : list event :=
+  match evs, impl with
+  | ev :: r, IRecv o _ _ :: i => if is_rejected o then filter_rejected_ev r i else ev :: filter_rejected_ev r i
+  | _, _ => []
+  end.
+Definition judge_c07_stale (e0 e1 : list event) (keep : bool) (e2 : list event)
+    (snap0 : snap) (impl : list iobs) (fin : list hcall)
+    (e2' : list event) (snap0' : snap) (impl' : list iobs) (fin' : list hcall) : verdict :=
+  judge_of true
+    (corr_stale e0 e1 keep e2 snap0 impl fin && corr_stale e0 e1 keep e2' snap0' impl' fin')
+    (ok_c07 snap0 impl
+     && events_eqb (filter_rejected_ev e2 impl) e2'
+     && snap_eqb snap0 snap0'
+     && all2 iobs_same
+          (List.filter (fun i => match i with IRecv o _ _ => negb (is_rejected o) | _ => true end) impl) impl'
+     && batch_eqb fin fin').
